@@ -2,9 +2,13 @@
    Statements only; proofs are in Proofs/WKT_proofs.v; the model is Model/WKT.v
    (writer: w_geom/append_wkt/as_text; lexer: lex; parser: parse; UnmarshalWKT with NoValidate:
    unmarshal_wkt).  Numbers are opaque symbols carrying the double's bits: their spelling and
-   reading is Go's strconv, validated by the correspondence run, not proved. *)
+   reading is Go's strconv, validated by the correspondence run, not proved.  A stretch of text
+   on which text/scanner reports a lexical error (malformed literal, invalid UTF-8) is the opaque
+   symbol Bad; the lexer answers it (and NUL) with the error mark TBad, which the parser meets
+   lazily, exactly where wkt_lexer.go:next returns the scanner's error. *)
 From Coq Require Import NArith List Bool Ascii String.
 From SF Require Import Base.Outcome Base.Bytes Base.GeomAST Model.WKT Proofs.WKT_proofs.
+From SF Require Import Proofs.WKT_total Proofs.WKT_trailing.
 From SF Require Model.WKB.
 Import ListNotations.
 
@@ -86,11 +90,44 @@ Theorem wkt_case_insensitive_all : forall ts ts' : list tok,
 Proof. exact parse_case_insensitive. Qed.
 Print Assumptions wkt_case_insensitive_all.
 
-(* 6. Trailing tokens are rejected. *)
+(* 6. Trailing tokens are rejected: a parse consumes the whole input.  [t] ranges over tokens AND
+      over the lexical-error mark TBad (the end-of-input check accepts nothing but end of input). *)
 Theorem wkt_trailing_rejected : forall (sp : spelling) (g : geomT N) (t : tok) (ts : list tok),
   spelling_ok sp -> wkt_dom g = true -> parse (toks sp g ++ t :: ts) = Err ESyntax.
 Proof. exact wkt_trailing_rejected_lemma. Qed.
 Print Assumptions wkt_trailing_rejected.
+
+(* 6b. The same at the level of TEXT: every blank-spelling of every keyword-case / parenthesis
+      variant of a geometry's text, followed by any text R that holds at least one token or one
+      lexical error (lex R = Ok (t :: tr): R is not blank) and does not continue the last word
+      (needed only when the spelling ends in EMPTY without a blank behind it), is rejected. *)
+Theorem wkt_trailing_text_rejected :
+  forall (sp : spelling) (g : geomT N) pre items (R : list ch) (t : tok) (tr : list tok),
+  spelling_ok sp -> wkt_dom g = true ->
+  forallb is_ws pre = true -> spell_ok items = true -> map fst items = toks sp g ->
+  implb (ends_open items) (starts_delim R) = true -> lex R = Ok (t :: tr) ->
+  unmarshal_wkt (spell pre items ++ R) = Err ESyntax.
+Proof. exact wkt_trailing_text_rejected_lemma. Qed.
+Print Assumptions wkt_trailing_text_rejected.
+
+Theorem wkt_trailing_after_text : forall (g : geomT N) (R : list ch) (t : tok) (tr : list tok),
+  wkt_dom g = true -> starts_delim R = true -> lex R = Ok (t :: tr) ->
+  unmarshal_wkt (as_text g ++ R) = Err ESyntax.
+Proof. exact wkt_trailing_after_text_lemma. Qed.
+Print Assumptions wkt_trailing_after_text.
+
+(* 6c. Lexical errors are never swallowed: a token stream with the error mark anywhere in it, and a
+      text with NUL / a malformed literal / invalid UTF-8 anywhere in it, is not accepted - whatever
+      stands before or behind (no hypothesis on the rest of the input). *)
+Theorem wkt_lexical_error_token_rejected : forall (ts : list tok) (g : geomT N),
+  In TBad ts -> parse ts <> Ok g.
+Proof. exact wkt_parse_bad_rejected_lemma. Qed.
+Print Assumptions wkt_lexical_error_token_rejected.
+
+Theorem wkt_lexical_error_rejected : forall (s : list ch) (g : geomT N),
+  existsb lex_error_ch s = true -> unmarshal_wkt s <> Ok g.
+Proof. exact wkt_lexical_error_rejected_lemma. Qed.
+Print Assumptions wkt_lexical_error_rejected.
 
 (* 7. The geometry obtained from WKT equals the one obtained from the same geometry's WKB
       (cites wkb_roundtrip of property C04). *)
@@ -175,6 +212,42 @@ Example coll_tag_mismatch :
   parse [T (L "GEOMETRYCOLLECTION"); T (L "Z"); T (L "("); T (L "POINT"); T (L "EMPTY"); T (L ")")]
   = Err ECollDims.
 Proof. vm_compute. reflexivity. Qed.
+
+(* trailing material: POINT(1 -2) followed by a blank and a malformed literal (say 09) and a whole
+   second geometry; by an invalid byte directly behind the parenthesis; EMPTY followed by NUL *)
+Definition ex_pt : geomT N := GPoint (MkPoint XY (Some (Build_vtx one mtwo 0 0))).
+Example trailing_bad_literal :
+  lex (C " "%char :: Bad :: C " "%char :: as_text ex_pt) = Ok [TBad] /\
+  starts_delim (C " "%char :: Bad :: C " "%char :: as_text ex_pt) = true /\
+  unmarshal_wkt (as_text ex_pt ++ C " "%char :: Bad :: C " "%char :: as_text ex_pt) = Err ESyntax.
+Proof. repeat split; vm_compute; reflexivity. Qed.
+Example trailing_bad_glued :
+  unmarshal_wkt (as_text ex_pt ++ [Bad]) = Err ESyntax /\
+  unmarshal_wkt (as_text (GPoint (MkPoint XY None)) ++ [C "000"%char; C "x"%char]) = Err ESyntax.
+Proof. split; vm_compute; reflexivity. Qed.
+(* hypotheses of 6b met by a spelling that ends in EMPTY with no blank behind it *)
+Example trailing_text_example :
+  let items := [(T (L "point"), [" "%char]); (T (L "EMPTY"), [])] in
+  let R := [C ")"%char; Bad] in
+  spell_ok items = true /\ map fst items = toks sp_lower (GPoint (MkPoint XY None)) /\
+  implb (ends_open items) (starts_delim R) = true /\ lex R = Ok [T (L ")"); TBad] /\
+  unmarshal_wkt (spell [] items ++ R) = Err ESyntax.
+Proof. repeat split; vm_compute; reflexivity. Qed.
+(* the separation hypothesis of 6b is not idle: EMPTY continued by a letter is another word
+   (still an error, but of the header, not of the end-of-input check) *)
+Example trailing_glue_is_another_word :
+  lex (str (L "POINT EMPTY") ++ [C "x"%char]) = Ok [T (L "POINT"); T (L "EMPTYx")].
+Proof. vm_compute. reflexivity. Qed.
+(* the end-of-input check must tell the end-of-input error from every other lexer error: the
+   variant that takes any error of the lexer for the end of input accepts a text with garbage
+   behind the geometry *)
+Definition eof_check_any_error {A} (a : A) (r : list tok) : outcome A :=
+  match t_next r with Ok _ => Err ESyntax | Err _ => Ok a | Panic p => Panic p end.
+Example eof_check_distinguishes :
+  eof_check ex_pt [TBad; T (L "LINESTRING")] = Err ESyntax /\
+  eof_check_any_error ex_pt [TBad; T (L "LINESTRING")] = Ok ex_pt /\
+  eof_check ex_pt [] = Ok ex_pt.
+Proof. repeat split. Qed.
 
 (* case variants in the sense of wkt_case_insensitive_all *)
 Example teqs_example :
